@@ -7,9 +7,9 @@ import re
 from lib.coqterm import cN, cbool, cbytes, clist, copt
 
 ID = "C08"
-QUICK_N = 1500
-THOROUGH_N = 40000
-SHARD = 125
+QUICK_N = 1000
+THOROUGH_N = 30000
+SHARD = 84
 COQ_PRELUDE = "From MV Require Import Model.HttpRoutingBase Gen.ConnSpec Model.HttpRouting.\n"
 TRANSLATORS = ["conn_spec"]
 ALLOWED_AXIOMS = []
@@ -18,7 +18,7 @@ RULE = ("a case is a client connection (mode regular / upstream / transparent wi
         "schemes x {no via, 3 vias}: requests (addon rewrites of request.host/port/scheme, of flow.server_conn.via, "
         "replacement of flow.server_conn by a fresh Server, optionally udp, in the requestheaders or request hook), TCP connect "
         "success / failure / deferred completion, upstream CONNECT accepted / refused, TLS handshake ok / failed / ALPN h2, "
-        "server answers with and without close, peer closes, attempts to assign Server.address / .via (same / different "
+        "server answers with and without close, peer closes (also: read side closed before the layer sees the event), attempts to assign Server.address / .via (same / different "
         "value, open / closed object). 70% of the requests repeat an earlier destination (reuse, queueing on a pending "
         "connection, cached errors), 30% are fresh or collide with a carrier address. Non-trivial = at least two "
         "GetHttpConnection commands or a rejected assignment; distinct by canonical JSON.")
@@ -181,6 +181,7 @@ class Run:
                 ctx.server.timestamp_start = 1624544785
         self.objs = [ctx.client, ctx.server]
         self.rws = {}
+        self.late = []
         self.d = S["Drv"](lambda cx: S["RecLayer"](cx, mode), ctx=ctx, policy=self.policy, connect=self.connect)
         self.d.start()
         # the model's initial state is the state after Start (upstream mode has set context.server.via)
@@ -449,8 +450,17 @@ class Run:
                         and (c.state & S["connection"].ConnectionState.CAN_READ)]
                 if live:
                     self.d.close(live[op["c"] % len(live)])
+            elif op["o"] == "half":
+                # proxy/server.py clears CAN_READ when it reads EOF; the ConnectionClosed event reaches the layer later
+                live = [c for i, c in enumerate(self.d.conns) if i and c.state is S["connection"].ConnectionState.OPEN]
+                if live:
+                    c = live[op["c"] % len(live)]
+                    c.state &= ~S["connection"].ConnectionState.CAN_READ
+                    self.late.append(c)
             elif op["o"] == "poke":
-                pending = {id(k) for k in self.d.layer.waiting_for_establishment}
+                L = self.d.layer
+                busy = {id(L.connections[k]) for k in L.waiting_for_establishment if k in L.connections}
+                pending = {id(k) for k in L.waiting_for_establishment} | {id(k) for k, h in L.connections.items() if id(h) in busy}
                 cand = [o for i, o in enumerate(self.objs) if i and id(o) not in pending]
                 if cand:
                     o = cand[op["c"] % len(cand)]
@@ -458,6 +468,9 @@ class Run:
                         self.assign(o, "address", o.address if op["same"] else OTHER_ADDR, "poke")
                     else:
                         self.assign(o, "via", o.via if op["same"] else S["server_spec"].ServerSpec(OTHER_VIA), "poke")
+        for c in self.late:
+            if not self.d.crashed:
+                self.d.event(S["events"].ConnectionClosed(c))
         # flush the last attribute changes (they are inputs of no later call, but keep the history complete)
         self.layer_state()
         self.sync()
@@ -492,3 +505,237 @@ def run_impl(case):
     return {"ctx": r.init_ctx, "steps": r.steps, "obs": r.obs, "stacks": r.stacks(), "heads": r.heads, "pokes": r.pokes,
             "stable": r.stable, "crashed": list(r.d.crashed) if r.d.crashed else None, "tags": sorted(r.tags),
             "nobj": len(r.objs)}
+
+
+# ------------------------------------------------------------------------------------------------ generator
+def _env(rng, case, op):
+    h2c = case["client"] == "h2"
+    op["conn"] = rng.weighted([(50 if h2c else 72, "ok"), (12, "fail"), (38 if h2c else 16, "defer")])
+    op["tun"] = rng.weighted([(85, "ok"), (15, "refuse")])
+    op["tls"] = rng.weighted([(85, "ok"), (15, "fail")])
+    if rng.chance(0.4):
+        op["alpn"] = "h2"
+    if rng.chance(0.08):
+        op["ptls"] = "fail"
+    op["resp"] = "none" if h2c else rng.weighted([(70, "ok"), (15, "close"), (15, "hdrclose")])
+    return op
+
+
+def _rw(rng):
+    rw = {"at": rng.choice(["requestheaders", "request"])}
+    if rng.chance(0.35):
+        rw["h"] = rng.choice(HOSTS)
+    if rng.chance(0.3):
+        rw["p"] = rng.choice(PORTS)
+    if rng.chance(0.3):
+        rw["s"] = rng.choice(["http", "https"])
+    if rng.chance(0.2):
+        rw["fresh"] = True
+        if rng.chance(0.35):
+            rw["tp"] = "udp"
+            rw["s"] = "http"
+    r = rng.random()
+    if r < 0.25:
+        rw["via"] = None
+    elif r < 0.6:
+        rw["via"] = rng.choice(VIAS)
+    if rng.chance(0.12):
+        rw["poke"] = rng.choice(["other", "same"])
+    return rw
+
+
+def gen_case(rng):
+    case = {"mode": rng.weighted([(45, "regular"), (30, "upstream"), (25, "transparent")]),
+            "client": "h2" if rng.chance(0.45) else "h1"}
+    if case["mode"] == "upstream":
+        case["up"] = rng.choice(VIAS)
+    if case["mode"] == "transparent":
+        tls = rng.chance(0.5)
+        case["ctx"] = {"h": rng.choice(HOSTS), "p": rng.choice(PORTS), "tls": tls, "open": rng.chance(0.6)}
+        if tls and rng.chance(0.3):
+            case["ctx"]["alpn"] = "h2"
+    ops, pool = [], []
+    for _ in range(rng.randint(2, 11)):
+        r = rng.random()
+        if r < 0.68 or not ops:
+            if pool and rng.chance(0.62):
+                base = rng.choice(pool)
+                op = {"o": "req", "h": base["h"], "p": base["p"], "s": base["s"]}
+                if base.get("rw"):
+                    op["rw"] = dict(base["rw"])
+            elif rng.chance(0.25):
+                # an origin request to the address of an upstream proxy in use, without via
+                v = rng.choice(VIAS)
+                op = {"o": "req", "h": v[1], "p": v[2], "s": v[0], "rw": {"at": "request", "via": None}}
+            else:
+                op = {"o": "req", "h": rng.choice(HOSTS), "p": rng.choice(PORTS), "s": rng.choice(["http", "https"])}
+                if rng.chance(0.5):
+                    op["rw"] = _rw(rng)
+            pool.append(op)
+            ops.append(_env(rng, case, dict(op)))
+        elif r < 0.84:
+            ops.append(_env(rng, case, {"o": "open", "i": rng.below(4), "ok": rng.chance(0.75)}))
+        elif r < 0.89:
+            ops.append({"o": "close", "c": rng.below(6)})
+        elif r < 0.93:
+            ops.append({"o": "half", "c": rng.below(6)})
+        else:
+            ops.append({"o": "poke", "c": rng.below(8), "f": rng.choice(["address", "via"]), "same": rng.chance(0.3)})
+    # drain deferred connects at the end so that queued requests get their replies
+    for _ in range(rng.randint(0, 3)):
+        ops.append(_env(rng, case, {"o": "open", "i": 0, "ok": rng.chance(0.8)}))
+    case["ops"] = ops
+    return case
+
+
+def gen(rng, n, tier):
+    return [gen_case(rng) for _ in range(n)]
+
+
+# ------------------------------------------------------------------------------------------------ Coq terms
+def _caddr(a):
+    return f"({cbytes(a[0].encode())}, {cN(a[1])})"
+
+
+def _cvia(v):
+    return "None" if v is None else f"(Some ({cbytes(v[0].encode())}, {_caddr(v[1:])}))"
+
+
+def _ctp(t):
+    return {"tcp": "TCP", "udp": "UDP"}[t]
+
+
+_CST = {0: "Closed", 1: "CanRead", 2: "CanWrite", 3: "Open"}
+
+
+def _cconn(k):
+    a = "None" if k["a"] is None else f"(Some {_caddr(k['a'])})"
+    return (f"(mkConn {cbool(k['srv'])} {a} {cbool(k['tls'])} {_cvia(k['via'])} {_ctp(k['tp'])} {_CST[k['st']]} "
+            f"{cbool(k['err'])} {cbool(k['h2'])})")
+
+
+def _cget(g):
+    return f"(mkGet {_caddr(g['a'])} {cbool(g['tls'])} {_cvia(g['via'])} {_ctp(g['tp'])})"
+
+
+def _cfield(f, v):
+    if f == "a":
+        return "(FAddress " + ("None" if v is None else f"(Some {_caddr(v)})") + ")"
+    if f == "via":
+        return f"(FVia {_cvia(v)})"
+    if f == "tls":
+        return f"(FTls {cbool(v)})"
+    if f == "tp":
+        return f"(FTp {_ctp(v)})"
+    if f == "st":
+        return f"(FState {_CST[v]})"
+    if f == "err":
+        return f"(FError {cbool(v)})"
+    return f"(FH2 {cbool(v)})"
+
+
+def _cout(o):
+    if o["r"] is None:
+        return f"(OReply {cN(o['rid'])} {_cget(o['g'])} None)"
+    c, k, h = o["r"]
+    return f"(OReply {cN(o['rid'])} {_cget(o['g'])} (Some ({cN(c)}, {_cconn(k)}, {cN(h if h >= 0 else 9999)})))"
+
+
+def coq_case(case, obs):
+    if "steps" not in obs:
+        return None
+    steps, observed = [], []
+    for s, o in zip(obs["steps"], obs["obs"]):
+        if s[0] == "get":
+            steps.append(f"(SGet {cN(s[1])} {_cget(s[2])})")
+        elif s[0] == "reg":
+            steps.append(f"(SRegister {cN(s[1])} {cbool(s[2])})")
+        else:
+            steps.append(f"(SSet {cN(s[1])} {_cfield(s[2], s[3])})")
+            observed.append(f"(ObsSet {cbool(s[4])})")
+            continue
+        conns = clist((f"({cN(a)}, {cN(b)})" for a, b in o["conns"]), "(N * N)%type")
+        waiting = clist((f"({cN(c)}, {clist((cN(r) for r in rs), 'N')})" for c, rs in o["waiting"]), "(N * list N)%type")
+        new = clist((f"({cN(i)}, {_cconn(k)})" for i, k in o["new"]), "(N * conn)%type")
+        observed.append(f"(ObsCall {clist((_cout(x) for x in o['outs']), 'out')} {conns} {waiting} {new})")
+    stacks = clist((f"({cN(l)}, mkStack {copt(c, cN, 'N')} {cbool(sc)} {cbool(t)})" for l, c, sc, t in obs["stacks"]), "(N * stackinfo)%type")
+    cf = f"(mkCfg {cN(1)} {cbool(case['client'] == 'h2')} {cbool(case['mode'] == 'upstream')})"
+    return f"Case {cf} {_cconn(obs['ctx'])} {clist(steps, 'step')} {clist(observed, 'obs')} {stacks}"
+
+
+# ------------------------------------------------------------------------------------------------ oracle
+def oracle(case, obs):
+    """The property on the implementation: where was each forwarded request head really written?"""
+    v = []
+    if obs.get("crashed"):
+        v.append({"key": "layer-crash", "what": f"HttpLayer raised {obs['crashed']}"})
+    for h in obs["heads"]:
+        d, L, P, n = h["dest"], h["L"], h["P"], h["n"]
+        if d is None or L is None:
+            v.append({"key": "unattributed-head", "what": f"request /f{n} was written upstream before its request hook finished"})
+            continue
+        where = f"request /f{n} for {d} written to connection #{h['phys']} {P['a']} (flow.server_conn {L['a']} tls={L['tls']} via={L['via']} {L['tp']})"
+        if not (L["srv"] and L["a"] == d["a"] and L["tls"] == d["tls"] and L["via"] == d["via"] and L["tp"] == d["tp"]):
+            v.append({"key": "spec-mismatch", "what": where})
+        if L["err"] or P["err"]:
+            v.append({"key": "write-to-failed", "what": where + " which has .error set"})
+        if L["st"] != 3 or not (P["st"] & 2):
+            v.append({"key": "write-to-closed", "what": where + f" in state {L['st']}/{P['st']}"})
+        if d["via"] is None:
+            if h["connects"]:
+                v.append({"key": "carrier-reused-as-origin",
+                          "what": where + f": that connection is a CONNECT tunnel to {h['connects'][-1]} through an upstream proxy, not the origin {d['a']}"})
+            elif not h["same"] or P["a"] != d["a"]:
+                v.append({"key": "wire-misroute", "what": where})
+        else:
+            want_connect = d["tls"] or case["mode"] != "upstream"
+            ok = (not h["same"]) and P["a"] == d["via"][1:] and P["tls"] == (d["via"][0] == "https") and P["via"] is None
+            if want_connect:
+                ok = ok and h["connects"] == [f"{d['a'][0]}:{d['a'][1]}"]
+            else:
+                ok = ok and h["connects"] == []
+            if d["tls"]:
+                ok = ok and h["Ltls_done"]
+            if not ok:
+                v.append({"key": "wire-misroute", "what": where + f" connects={h['connects']}"})
+    for p in obs["pokes"]:
+        if p["open"] and p["changed"] and not (p["raised"] and p["kept"]):
+            v.append({"key": "mutable-while-open", "what": f"assignment of a different address/via to an open Server was accepted ({p})"})
+    for i, f in obs["stable"]:
+        v.append({"key": "mutable-while-open", "what": f"{f} of object #{i} changed while it stayed open"})
+    return v
+
+
+def _calls(obs):
+    return [(s, o) for s, o in zip(obs.get("steps", []), obs.get("obs", [])) if s[0] != "set"]
+
+
+def nontrivial(case, obs):
+    gets = sum(1 for s, _ in _calls(obs) if s[0] == "get")
+    return gets >= 2 or any(s[0] == "set" and not s[4] for s in obs.get("steps", []))
+
+
+def classify(case, obs):
+    tags = [case["mode"], "client-" + case["client"]]
+    for s, o in _calls(obs):
+        if s[0] == "get":
+            if not o["outs"]:
+                tags.append("new-via" if len(o["new"]) == 2 else "new" if o["new"] else "queued")
+            for x in o["outs"]:
+                tags.append("err-reply" if x["r"] is None else "ctx-used" if x["r"][0] == 1 else "reuse")
+                if x["r"] is not None and x["r"][0] != x["r"][2]:
+                    tags.append("reply-foreign-handler")
+        else:
+            tags.append("reg-err" if s[2] else "reg-ok")
+            if o["new"]:
+                tags.append("reget-h2-to-h1")
+            if len(o["outs"]) > 1:
+                tags.append("reg-multi-reply")
+    if any(s[0] == "set" and not s[4] for s in obs.get("steps", [])):
+        tags.append("set-rejected")
+    if any(h["P"]["h2"] or (h["L"] or {}).get("h2") for h in obs.get("heads", [])):
+        tags.append("h2-server")
+    if any(h["L"] and h["L"]["tp"] == "udp" for h in obs.get("heads", [])):
+        tags.append("udp")
+    tags.append("heads=%d" % min(len(obs.get("heads", [])), 5))
+    return sorted(set(tags))
